@@ -3,6 +3,7 @@ package c19
 import (
 	"fmt"
 	"math"
+	"time"
 
 	"verif/internal/h"
 
@@ -37,6 +38,9 @@ type BootCase struct {
 	DblAngle *int      `json:"doubleAngle"`
 	InvDeg   *int      `json:"mod1InvDegree"`
 }
+
+// wildSizes are prime-size requests outside the supported 1..61.
+var wildSizes = []int{0, -1, -7, -64, -1 << 40, 62, 63, 64, 65, 100, 128, 1 << 20, 1 << 40}
 
 func optInt(t *rapid.T, label string, lo, hi int, bad []int) *int {
 	switch rapid.IntRange(0, 14).Draw(t, label+"_k") {
@@ -96,6 +100,9 @@ func genBoot(t *rapid.T) BootCase {
 	if rapid.IntRange(0, 2).Draw(t, "hasLogP") == 0 {
 		c.LogP = h.GenSizes(t, rapid.IntRange(0, 3).Draw(t, "nLogP"), bootLogN+8, 61, "lp")
 	}
+	if c.LogP != nil && len(c.LogP) > 0 && rapid.IntRange(0, 5).Draw(t, "lpWild") == 0 {
+		c.LogP[rapid.IntRange(0, len(c.LogP)-1).Draw(t, "lpWildI")] = rapid.SampledFrom(wildSizes).Draw(t, "lpWildV")
+	}
 	c.LogSlots = optInt(t, "logSlots", 1, bootLogN-1, []int{0, -1, bootLogN, bootLogN + 5})
 	mat := func(label string) [][]int {
 		if rapid.IntRange(0, 2).Draw(t, label+"_nil") == 0 {
@@ -118,6 +125,11 @@ func genBoot(t *rapid.T) BootCase {
 				budget -= v
 			}
 		}
+		// a size request outside 1..61 (negative, zero, 62..65, huge), in one entry
+		if len(out) > 0 && rapid.IntRange(0, 9).Draw(t, label+"_wild") == 0 {
+			i := rapid.IntRange(0, len(out)-1).Draw(t, label+"_wildI")
+			out[i] = append(out[i], rapid.SampledFrom(wildSizes).Draw(t, label+"_wildV"))
+		}
 		return out
 	}
 	c.C2S, c.S2C = mat("c2s"), mat("s2c")
@@ -131,7 +143,7 @@ func genBoot(t *rapid.T) BootCase {
 		if c.IterPrec == nil {
 			c.IterPrec = []float64{}
 		}
-		c.IterBits = rapid.SampledFrom([]int{0, bootLogN + 8, 40, 61, 62, 100}).Draw(t, "iterBits")
+		c.IterBits = rapid.SampledFrom([]int{0, bootLogN + 8, 40, 61, 62, 100, -1, -64, -1 << 40}).Draw(t, "iterBits")
 	}
 	c.MsgRatio = optInt(t, "msgRatio", 0, 12, []int{-1})
 	c.K = optInt(t, "K", 1, 32, []int{-1, 0})
@@ -165,8 +177,65 @@ func runBoot(c BootCase, rec *h.Rec) error {
 	if err := lit2.UnmarshalBinary(bin); err != nil {
 		return h.Failf("C19:boot:literal-unmarshal", "UnmarshalBinary(MarshalBinary(literal)): %v; %s", err, bin)
 	}
-	bp, err := bootstrapping.NewParametersFromLiteral(res, lit)
-	bp2, err2 := bootstrapping.NewParametersFromLiteral(res, lit2)
+	// every prime-size request the constructor will make; one outside 1..61 cannot be served
+	wild := false
+	for _, b := range c.LogP {
+		if b < 1 || b > 61 {
+			wild = true
+		}
+	}
+	for _, mtx := range [][][]int{c.C2S, c.S2C} {
+		for _, row := range mtx {
+			for _, b := range row {
+				if b < 1 || b > 61 {
+					wild = true
+				}
+			}
+		}
+	}
+	if c.IterPrec != nil && c.IterBits < 0 {
+		wild = true
+	}
+	var bp, bp2 bootstrapping.Parameters
+	var err2 error
+	if !wild {
+		bp, err = bootstrapping.NewParametersFromLiteral(res, lit)
+		bp2, err2 = bootstrapping.NewParametersFromLiteral(res, lit2)
+	} else {
+		// bounded time: the prime search must not walk through 2^64/NthRoot candidates
+		rec.Class("sizes=wild")
+		const hk = "C19:boot:size-request-outside-1..61:does-not-return"
+		if leakedSpinners.Load() >= 2 {
+			return h.Failf(hk, "not re-executed: two spinning goroutines already leaked in this process")
+		}
+		type res2 struct {
+			a, b   bootstrapping.Parameters
+			e1, e2 error
+			pan    any
+		}
+		ch := make(chan res2, 1)
+		go func() {
+			defer func() {
+				if r := recover(); r != nil {
+					ch <- res2{pan: r}
+				}
+			}()
+			var r res2
+			r.a, r.e1 = bootstrapping.NewParametersFromLiteral(res, lit)
+			r.b, r.e2 = bootstrapping.NewParametersFromLiteral(res, lit2)
+			ch <- r
+		}()
+		select {
+		case r := <-ch:
+			if r.pan != nil {
+				return h.Failf("C19:boot:size-request-outside-1..61:panic", "bootstrapping.NewParametersFromLiteral panics: %v; literal %s", r.pan, bin)
+			}
+			bp, bp2, err, err2 = r.a, r.b, r.e1, r.e2
+		case <-time.After(20 * time.Second):
+			leakedSpinners.Add(1)
+			return h.Failf(hk, "bootstrapping.NewParametersFromLiteral did not return within 20 s; literal %s", bin)
+		}
+	}
 	if (err == nil) != (err2 == nil) {
 		return h.Failf("C19:boot:literal-encoding-changes-outcome", "literal: %v; decoded literal: %v; %s", err, err2, bin)
 	}
@@ -212,7 +281,86 @@ func runBoot(c BootCase, rec *h.Rec) error {
 		}
 		for i, p := range b.P() {
 			if r := int(math.Round(math.Log2(float64(p)))); r != c.LogP[i] {
-				return h.Failf("C19:boot:P-size", "P[%d]=%d has round(log2)=%d, requested %d", i, p, r, c.LogP[i])
+				key := "C19:boot:P-size"
+				if c.LogP[i] < 1 || c.LogP[i] > 61 {
+					key = "C19:boot:size-request-outside-1..61:accepted-with-other-size"
+				}
+				msg := fmt.Sprintf("P[%d]=%d has round(log2)=%d, requested %d (LogP=%v)", i, p, r, c.LogP[i], c.LogP)
+				if rec.Known(key, msg) {
+					rec.Class("known=" + key)
+					break
+				}
+				return h.Failf(key, "%s", msg)
+			}
+		}
+	}
+	// sizes of the primes appended for the circuit: reserved prime, one per SlotsToCoeffs matrix (sum of its scales, plus the
+	// default scale when that stays below 61), Mod1 depth x EvalModLogScale, one per CoeffsToSlots matrix
+	{
+		var want []int
+		if bp.IterationsParameters != nil && bp.IterationsParameters.ReservedPrimeBitSize > 0 {
+			want = append(want, bp.IterationsParameters.ReservedPrimeBitSize)
+		}
+		s2cLit := c.S2C
+		if s2cLit == nil {
+			ls := logN - 1
+			if c.LogSlots != nil {
+				ls = *c.LogSlots
+			}
+			for i := 0; i < min(3, max(ls, 1)); i++ {
+				s2cLit = append(s2cLit, []int{39})
+			}
+		}
+		for _, row := range s2cLit {
+			q := 0
+			for _, v := range row {
+				q += v
+			}
+			if q+res.LogDefaultScale() < 61 {
+				q += res.LogDefaultScale()
+			}
+			want = append(want, q)
+		}
+		em := 60
+		if c.EvalMod != nil {
+			em = *c.EvalMod
+		}
+		for i := 0; i < bp.Mod1ParametersLiteral.Depth(); i++ {
+			want = append(want, em)
+		}
+		c2sLit := c.C2S
+		if c2sLit == nil {
+			ls := logN - 1
+			if c.LogSlots != nil {
+				ls = *c.LogSlots
+			}
+			for i := 0; i < min(4, max(ls, 1)); i++ {
+				c2sLit = append(c2sLit, []int{56})
+			}
+		}
+		for _, row := range c2sLit {
+			q := 0
+			for _, v := range row {
+				q += v
+			}
+			want = append(want, q)
+		}
+		got := b.Q()[len(res.Q()):]
+		if len(got) != len(want) {
+			return h.Failf("C19:boot:appended-count", "%d primes appended, the literal asks for %d (%v)", len(got), len(want), want)
+		}
+		for i, q := range got {
+			if r := int(math.Round(math.Log2(float64(q)))); r != want[i] {
+				key := "C19:boot:appended-size"
+				if want[i] < 1 || want[i] > 61 {
+					key = "C19:boot:size-request-outside-1..61:accepted-with-other-size"
+				}
+				msg := fmt.Sprintf("appended prime %d = %d has round(log2) = %d, the literal asks for %d bits (all requests %v); literal %s", i, q, r, want[i], want, bin)
+				if rec.Known(key, msg) {
+					rec.Class("known=" + key)
+					break
+				}
+				return h.Failf(key, "%s", msg)
 			}
 		}
 	}
